@@ -404,3 +404,90 @@ func ZZ_C10_client_credentials_public() {
 		zz.Assert(world.ErrName(err) == "invalid_grant" || world.ErrName(err) == "invalid_client" || world.ErrName(err) == "invalid_request", "public client refused")
 	}
 }
+
+// ---------------------------------------------------------------- whose name is the request processed in
+
+// ZZ_C10_in_the_name_of: client c2 authenticates (Basic header, its own right secret, or its secret in
+// the body) while the body carries an arbitrary client_id (symbolic: c1, c2, a case variant, unknown). A
+// request that is processed is processed in the name of the client that proved its secret: nothing is
+// issued, stored or revoked for another client.
+func ZZ_C10_in_the_name_of() {
+	w := world.New(world.Options{
+		Extra: []compose.Factory{compose.RFC8628DeviceFactory, compose.RFC8628DeviceAuthorizationTokenFactory, compose.PushedAuthorizeHandlerFactory},
+		Tweak: func(cfg *fosite.Config) { cfg.DeviceVerificationURL = "https://as.example/device" },
+	})
+	ctx := w.Ctx
+	// c1 owns a live token pair
+	pair, err := w.Password("c1", []string{"offline", "photos"})
+	zz.Assume(err == nil)
+	at := pair.GetAccessToken()
+	basic := zz.Choice("transport", 2) == 0
+	claimed := zz.String("claimed_id", 3)
+	post := func(form url.Values) *http.Request {
+		form.Set("client_id", claimed)
+		if !basic {
+			form.Set("client_secret", world.Secret2) // c2's secret next to c1's id
+		}
+		r := world.Post(form)
+		if basic {
+			r.Header.Set("Authorization", world.BasicHeader("c2", world.Secret2))
+		}
+		return r
+	}
+	var name string
+	owner := ""
+	switch zz.Choice("endpoint", 5) {
+	case 0:
+		name = "par"
+		var par fosite.AuthorizeRequester
+		// both clients could legitimately push this request for themselves? no: the redirect URI is c1's
+		par, err = w.Provider.NewPushedAuthorizeRequest(ctx, post(url.Values{"response_type": {"code"}, "redirect_uri": {"https://c1.example/cb"}, "scope": {"photos"}, "state": {"state-0123456789"}}))
+		if err == nil {
+			owner = par.GetClient().GetID()
+			_, err = w.Provider.NewPushedAuthorizeResponse(ctx, par, world.NewSession("peter"))
+			for _, s := range w.Store.PARSessions {
+				zz.Assert(s.GetClient().GetID() == "c2", "stored pushed request belongs to the client that authenticated")
+			}
+		}
+	case 1:
+		name = "par-own-redirect"
+		var par fosite.AuthorizeRequester
+		par, err = w.Provider.NewPushedAuthorizeRequest(ctx, post(url.Values{"response_type": {"code"}, "redirect_uri": {"https://c2.example/cb"}, "scope": {"photos"}, "state": {"state-0123456789"}}))
+		if err == nil {
+			owner = par.GetClient().GetID()
+		}
+	case 2:
+		name = "device-authorization"
+		var d fosite.DeviceRequester
+		d, err = w.Provider.NewDeviceRequest(ctx, post(url.Values{"scope": {"photos"}}))
+		if err == nil {
+			owner = d.GetClient().GetID()
+		}
+	case 3:
+		name = "token:client_credentials"
+		var ar fosite.AccessRequester
+		ar, err = w.Provider.NewAccessRequest(ctx, post(url.Values{"grant_type": {"client_credentials"}, "scope": {"photos"}}), world.NewSession(""))
+		if err == nil {
+			owner = ar.GetClient().GetID()
+		}
+	case 4:
+		name = "revocation"
+		err = w.Provider.NewRevocationRequest(ctx, post(url.Values{"token": {at}}))
+		active, _ := w.Introspect(at, fosite.AccessToken)
+		zz.Assert(active, "c1's token is not revoked by a caller that did not prove c1's secret")
+		owner = "c2"
+	}
+	zz.Observe("endpoint", name)
+	zz.Observe("err", world.ErrName(err))
+	if !basic && claimed != "c2" {
+		zz.Assert(err != nil, "another client's id with c2's secret is refused")
+		zz.Cover("name:foreign-secret-refused:"+name, true)
+		return
+	}
+	if err != nil {
+		zz.Cover("name:refused:"+name, true)
+		return
+	}
+	zz.Cover("name:processed:"+name, true)
+	zz.Assert(owner == "c2", "a processed request is processed in the name of the client that proved its secret")
+}
